@@ -1,7 +1,9 @@
+import datetime
 import io
 
 from collections.abc import Sequence
 from typing import IO
+from typing import Final
 from typing import assert_never
 
 import crc32c
@@ -22,6 +24,15 @@ from kio.static.primitive import i16
 from kio.static.primitive import i32
 from kio.static.primitive import i64
 from kio.static.primitive import u32
+
+
+_epoch: Final = datetime.datetime.fromtimestamp(0, datetime.UTC)
+_one_millisecond: Final = datetime.timedelta(milliseconds=1)
+
+
+def _timestamp_milliseconds(value: datetime.datetime) -> int:
+    # Integer arithmetic, truncating any sub-millisecond precision.
+    return (value - _epoch) // _one_millisecond
 
 
 def write_signed_compact_bytes(buffer: IO[bytes], value: bytes | None) -> None:
@@ -48,7 +59,7 @@ def write_record(
         write_int8(record_buffer, record.attributes)
         write_signed_varlong(
             record_buffer,
-            int(record.timestamp.timestamp() * 1000) - base_timestamp,
+            _timestamp_milliseconds(record.timestamp) - base_timestamp,
         )
         write_signed_varint(record_buffer, record.offset - base_offset)
         write_signed_compact_bytes(record_buffer, record.key)
@@ -120,9 +131,9 @@ def write_new_batch(buffer: IO[bytes], new_batch: NewRecordBatch) -> None:
 
     base_offset = first_record.offset
     last_offset_delta = i32(last_record.offset - base_offset)
-    base_timestamp = i64(int(first_record.timestamp.timestamp() * 1000))
+    base_timestamp = i64(_timestamp_milliseconds(first_record.timestamp))
     max_timestamp = i64(
-        int(1000 * max(record.timestamp for record in new_batch.records).timestamp())
+        _timestamp_milliseconds(max(record.timestamp for record in new_batch.records))
     )
 
     with io.BytesIO() as crc_buffer:
